@@ -246,6 +246,15 @@ fn lf_one(cx: &mut Ctx, sel: u8, body: &[u8], rng: &mut Rng) {
                 let full = lf::fault_free(&d, nl);
                 let k = rng.below(calls as u64) as usize;
                 lf::case_writef(cx, &d, nl, k, sel & 0x40 != 0, &full);
+                // the newline option switched again between links
+                if sel & 0x20 != 0 {
+                    let flags: String = (0..=d.len()).map(|_| *rng.pick(&['-', '0', '1'])).collect();
+                    let c2 = lf::case_writeo(cx, &d, nl, &flags, None, false);
+                    if c2 > 0 {
+                        let k2 = rng.below(c2 as u64) as usize;
+                        lf::case_writeo(cx, &d, nl, &flags, Some(k2), sel & 0x40 != 0);
+                    }
+                }
             }
         }
         _ => {
@@ -552,6 +561,12 @@ fn acc_one(cx: &mut Ctx, sel: u8, rng: &mut Rng) {
         let cleared: Vec<u16> = (0..rng.below(3)).map(|_| if spec.opts.is_empty() { 11 } else { spec.opts[rng.below(spec.opts.len() as u64) as usize].0 }).collect();
         if sel & 0x80 == 0 {
             acc::view_case(cx, &spec, &cleared);
+            if sel & 0x40 != 0 {
+                let adds: Vec<(u16, Vec<u8>)> = (0..rng.below(4)).map(|_| { let n = *rng.pick(&[1u16, 4, 6, 11, 12, 15, 23, 27, 60, 258, 300, 65535, 0]); let k = rng.below(4) as usize; (n, rng.bytes(k)) }).collect();
+                let k = rng.below(4) as usize;
+                let pay = rng.bytes(k);
+                acc::wadd_case(cx, &spec, &cleared, &adds, rng.below(256) as u8, &pay);
+            }
         } else {
             let len = rng.below(600) as usize;
             let t = rng.below(700) as usize;
